@@ -325,7 +325,25 @@ func main() {
 			}
 		}
 		r.Units["witness changes fired"] = fired
+		// and must stay silent on the stored behaviour-preserving edits
+		bs := runBenign(id)
+		r.Extra["benign_edits"] = bs
+		quiet, alarms := 0, 0
+		for _, b := range bs {
+			fmt.Printf("  benign  %-40s %s %s\n", b.Patch, b.Result, b.Detail)
+			switch b.Result {
+			case "quiet":
+				quiet++
+			case "false-alarm":
+				alarms++
+			}
+		}
+		r.Units["behaviour-preserving edits left quiet"] = quiet
 		code := r.Finish()
+		if code == 0 && alarms > 0 {
+			fmt.Fprintf(os.Stderr, "SELFTEST-FAILED: %d stored behaviour-preserving edit(s) made the rules of %s fire: false alarm, no verdict\n", alarms, id)
+			os.Exit(2)
+		}
 		if code == 0 && silent > 0 {
 			fmt.Fprintf(os.Stderr, "SELFTEST-FAILED: %d stored witness change(s) that break %s were not reported: the rule set is blind, no verdict\n", silent, id)
 			os.Exit(2)
